@@ -2,6 +2,8 @@
 C10 — options shape Go types exactly as documented, with documented precedence.
 -/
 import Genq.Model.Conv
+import Genq.Model.ConvSkel
+import Genq.Extracted.Conv
 namespace Genq.Conv
 
 /-- first value that is set -/
@@ -103,3 +105,13 @@ example : convertType ⟨.generic, false⟩ .scalar {} (.named "String" false) =
 example : (merge { pointer := some false } { pointer := some true } { pointer := some true, omitempty := some true }).pointer = some false := by decide
 
 end Genq.Conv
+
+namespace Genq
+
+/-- **C10_convertType_tie** — convertType: bind, list, named type, struct-reference / pointer / generic wrappers, as in /repo now (regenerated on every run), equal to the copy the model was written from -/
+theorem C10_convertType_tie : Extracted.convertTypeSkeleton = ConvSkel.convertTypeSkeleton := rfl
+
+/-- **C10_directive_merge_tie** — mergeOperationDirective: node > for > operation, option by option, as in /repo now (regenerated on every run), equal to the copy the model was written from -/
+theorem C10_directive_merge_tie : Extracted.directiveMergeSkeleton = ConvSkel.directiveMergeSkeleton := rfl
+
+end Genq
